@@ -2007,13 +2007,20 @@ fn specialize(ctor: &Ctor, pattern: &[TypedPattern]) -> Vec<PatternStack> {
             | PatternEnum::StructIgnoreRemaining(struct_name_in_pattern, fields)
                 if struct_name == struct_name_in_pattern =>
             {
-                vec![
-                    fields
-                        .iter()
-                        .map(|(_, pattern)| pattern.clone())
-                        .chain(tail)
-                        .collect(),
-                ]
+                // One column per field of the struct, in the order of its definition: the pattern may
+                // list its fields in any order, and a field that it does not mention (`..`) matches
+                // every value
+                let mut row = Vec::with_capacity(field_types.len());
+                for (field_name, field_ty) in field_types {
+                    match fields.iter().find(|(name, _)| name == field_name) {
+                        Some((_, pattern)) => row.push(pattern.clone()),
+                        None => {
+                            let wildcard = PatternEnum::Identifier("_".to_string());
+                            row.push(Pattern::typed(wildcard, field_ty.clone(), *meta));
+                        }
+                    }
+                }
+                vec![row.into_iter().chain(tail).collect()]
             }
             _ => vec![],
         },
